@@ -5,6 +5,7 @@
 #include <sys/mman.h>
 
 #include <memory>
+#include <set>
 
 #include "common/families.hpp"
 #include "common/refjson.hpp"
@@ -261,6 +262,39 @@ int main(int argc, char** argv) {
     f3.rule = "each base text preceded by k in 0..139 spaces and with k%7 spaces after every comma/colon";
     fams.push_back(f3);
 
+    // OW: shape-bounded valid texts (<= 2 children per container, nesting depth <= 2, empty containers below)
+    // x all paths of depth <= 3: two-member objects/arrays nested in two-member containers
+    static std::shared_ptr<std::vector<std::string>> owtexts(new std::vector<std::string>());
+    {
+      std::vector<std::string> lv = {"1", "{}", "\"]\\\"{\""};
+      if (!quick && !HAVE_ASAN) lv.push_back("[]");
+      auto containers = [](const std::vector<std::string>& S) {
+        std::vector<std::string> out = {"[]", "{}"};
+        for (auto& x : S) out.push_back("[" + x + "]");
+        for (auto& x : S)
+          for (auto& y : S) out.push_back("[" + x + "," + y + "]");
+        for (const char* k : {"\"a\"", "\"b\""})
+          for (auto& x : S) out.push_back(std::string("{") + k + ":" + x + "}");
+        for (int o = 0; o < 3; o++)
+          for (auto& x : S)
+            for (auto& y : S) out.push_back(std::string("{") + (o == 1 ? "\"b\"" : "\"a\"") + ":" + x + "," + (o == 0 ? "\"b\"" : "\"a\"") + ":" + y + "}");  // o==2: duplicate key a,a
+        return out;
+      };
+      std::set<std::string> seen;
+      std::vector<std::string> v1 = lv;
+      for (auto& c : containers(lv)) v1.push_back(c);
+      std::vector<std::string> all = lv;
+      for (auto& c : containers(v1)) all.push_back(c);
+      for (auto& x : all)
+        if (seen.insert(x).second) owtexts->push_back(x);
+    }
+    vr::Family f5;
+    f5.name = "OW_shape_depth2";
+    f5.count = owtexts->size();
+    f5.group = "OW";
+    f5.chunk = 16;
+    f5.rule = "every value with <= 2 children per container and nesting depth <= 2 (leaves 1, {}, a string holding ] \" {; keys a,b in both orders and duplicated) x all paths of depth <= 3";
+    fams.push_back(f5);
     // OK: long keys with an escape at every offset relative to the vector blocks
     vr::Family f4;
     f4.name = "OK_long_escaped_keys";
@@ -272,6 +306,19 @@ int main(int argc, char** argv) {
     static const char* kEsc[5] = {"\\u0041", "\\/", "\\n", "\\\"", "\\\\"};
     static const char* kDec[5] = {"A", "/", "\n", "\"", "\\"};
     check = [&, NN, NP](const vr::Family& f, uint64_t idx, vr::Ctx& ctx) {
+      if (f.name[1] == 'W') {
+        const std::string& s = (*owtexts)[idx];
+        ref::Result r = ref::parse(s);
+        if (!r.ok) {
+          ctx.violation("generator_invalid", "generator_invalid", s, "harness error: generated text is not valid");
+          return;
+        }
+        if (ctx.want_sample) ctx.sample(s);
+        static const std::vector<ref::Step> nopre;
+        static const JsonPointer nojp;
+        c10_text(s, r.v, paths3, jps3, nopre, nojp, ctx);
+        return;
+      }
       if (f.name[1] == 'K') {
         unsigned ek = (unsigned)(idx % 5);
         idx /= 5;
